@@ -2055,6 +2055,25 @@ func (r *Raft) installSnapshot(rpc RPC, req *InstallSnapshotRequest) {
 		r.logger.Error("failed to compact logs", "error", err)
 	}
 
+	// Log entries that stay above the snapshot (it came late, or twice) may
+	// hold configurations newer than the snapshot's. They remain in force, as
+	// they are when NewRaft scans the log above the snapshot it restored.
+	if lastIdx, _ := r.getLastLog(); lastIdx > req.LastLogIndex {
+		for index := req.LastLogIndex + 1; index <= lastIdx; index++ {
+			var entry Log
+			if err := r.logs.GetLog(index, &entry); err != nil {
+				break
+			}
+			if err := r.processConfigurationLogEntry(&entry); err != nil {
+				r.logger.Warn("failed to decode retained configuration entry", "index", index, "error", err)
+				break
+			}
+		}
+		if r.configurations.latestIndex <= r.getCommitIndex() {
+			r.setCommittedConfiguration(r.configurations.latest, r.configurations.latestIndex)
+		}
+	}
+
 	r.logger.Info("Installed remote snapshot")
 	resp.Success = true
 	r.setLastContact()
